@@ -70,7 +70,29 @@ def _prove_len (repo, f, g, node, buf, need_expr, limit=250):
   if not paths: return 'undecided', "no path enumerated"
   if len(paths) >= limit: return 'undecided', "more than %d paths to the site" % limit
   worst = None
+  def contradictory (path):
+    # the same side-effect-free test taken both ways with nothing it reads written in between (a guard `if A and short: return`
+    # followed by `if A: read`): not a path of the program
+    seen = {}
+    for i, n in enumerate(path):
+      a = n.ast
+      if n.kind == 'branch' and not isinstance(n.label[0], (ast.For, ast.AsyncFor)) and not any(isinstance(x, ast.Call) for x in ast.walk(n.label[0])):
+        k = norm(n.label[0])
+        if k in seen and seen[k] != n.label[1]: return True
+        seen[k] = n.label[1]
+      elif a is not None and isinstance(a, (ast.Assign, ast.AugAssign, ast.AnnAssign, ast.Delete, ast.For)):
+        tg = []
+        for t in (a.targets if isinstance(a, (ast.Assign, ast.Delete)) else [a.target]):
+          tg += [norm(x) for x in ast.walk(t) if isinstance(x, (ast.Name, ast.Attribute, ast.Subscript))]
+        for k in list(seen):
+          if any(t and t in k for t in tg): del seen[k]
+      elif a is not None and n.kind not in ('branch',) and any(isinstance(x, ast.Call) for x in ast.walk(a) if not isinstance(a, (ast.If, ast.While))):
+        # a call may change attributes: forget tests that read attributes
+        for k in list(seen):
+          if '.' in k: del seen[k]
+    return False
   for path, fe in paths:
+    if contradictory(path): continue
     have = 0; env_at = None
     for n, env in q.replay(repo, mod, path, q.Env(), cls):
       if n is node: env_at = env; break
